@@ -277,13 +277,27 @@ def run_job(pid, job, tier, seed, hb, runner_exe, tag=""):
             r["error"] = "runner exit %d: %s" % (rc2, mo[-2000:])
             return r
         model = dict(l.split("\t", 1) for l in mo.splitlines() if "\t" in l)
+        proj = job.get("project")
+        fields_of = {}
+        if proj:
+            for l in open(cases):
+                parts = l.rstrip("\n").split("\t")
+                fields_of[parts[0]] = parts[1:]
         for l in open(os.path.join(out, "impl.tsv")):
             l = l.rstrip("\n")
             if "\t" not in l:
                 continue
             cid, obs = l.split("\t", 1)
             mobs = model.get(cid)
-            if mobs != obs:
+            if proj and mobs is not None and not mobs.startswith("MODEL-ERROR"):
+                # compare projected observables only (DESIGN 2.3): what this property is about
+                try:
+                    po, pm = proj(fields_of.get(cid, []), obs), proj(fields_of.get(cid, []), mobs)
+                except Exception as e:          # malformed line: fall back to the full comparison
+                    po, pm = obs, mobs
+                if po != pm:
+                    mism.append({"id": cid, "impl": po[:400], "model": pm[:400]})
+            elif mobs != obs:
                 mism.append({"id": cid, "impl": obs[:400], "model": (mobs or "<none>")[:400]})
     r["mismatches"] = mism
     ofs = []
@@ -348,6 +362,11 @@ def run_property(pid, spec, tier, seed, replay=None):
                 return k
         return None
 
+    def relevant(msg):
+        """oracle messages start with [<property>-<sig>]; another property's finding is judged by that property's check"""
+        m = re.match(r"\[(C\d+)-", msg)
+        return (m is None) or (m.group(1) == pid) or (m.group(1) in spec.get("also_sigs", []))
+
     def process(r):
         """turn one job result into violations; returns True when a failing input was exhibited"""
         found = False
@@ -357,6 +376,8 @@ def run_property(pid, spec, tier, seed, replay=None):
             return False
         bad_ids = set()
         for of in r["oracle_failures"]:
+            if not relevant(of["msg"]):
+                continue
             k = attribute(of["msg"])
             if k:
                 known_hits.setdefault(k["sig"], (k, of))
@@ -403,7 +424,7 @@ def run_property(pid, spec, tier, seed, replay=None):
                 if "error" in r:
                     continue
                 for of in r["oracle_failures"]:
-                    if attribute(of["msg"]):
+                    if attribute(of["msg"]) or not relevant(of["msg"]):
                         continue
                     violations.insert(0, ({"property_id": pid, "kind": "failing-input", "theorem_or_tie": "oracle:" + r["name"],
                                            "seed": seed + extra, "job": r["name"], "n": r["n"], "tier": "quick",
@@ -433,7 +454,7 @@ def run_property(pid, spec, tier, seed, replay=None):
     if not samples:
         samples = [{"note": "no correspondence case was run", "theorems": [t["name"] for t in proof["theorems"]]}]
     n_mism = sum(len(j.get("mismatches", [])) for j in jobs)
-    n_orc = sum(len(j.get("oracle_failures", [])) for j in jobs)
+    n_orc = sum(len([of for of in j.get("oracle_failures", []) if relevant(of["msg"])]) for j in jobs)
     evidence = {
         "property_id": pid, "tier": tier, "seed": seed, "level": "proof",
         "wall_s": round(time.time() - t0, 2),
